@@ -553,10 +553,16 @@ class Interp:
                     continue
                 yield ("next",), env2, st2
         elif isinstance(n, ast.AugAssign):
-            load = copy.deepcopy(n.target)
-            for x in ast.walk(load):
-                if hasattr(x, "ctx"):
-                    x.ctx = ast.Load()
+            t = n.target
+            if isinstance(t, ast.Name):
+                load = ast.Name(t.id, ast.Load())
+            elif isinstance(t, ast.Attribute):
+                load = ast.Attribute(t.value, t.attr, ast.Load())
+            elif isinstance(t, ast.Subscript):
+                load = ast.Subscript(t.value, t.slice, ast.Load())
+            else:
+                raise Unsupported("augmented assignment target")
+            ast.copy_location(load, t)
             e = ast.copy_location(ast.BinOp(load, n.op, n.value), n)
             ast.fix_missing_locations(e)
             for v, env2, st2 in self.ev(e, env, st, ctx):
@@ -640,6 +646,12 @@ class Interp:
             o.f[t.attr] = v
         elif isinstance(t, ast.Subscript):
             fr = st.d(self.ev1(t.value, env, st, ctx))
+            if isinstance(fr, Opaque) and fr.d in ("classattr", "modexpr") \
+                    or (isinstance(fr, Opaque) and "Frame(" in str(fr.d)):
+                raise Raise("SHARED-STATE: item store into `%s`, an object "
+                            "that is not created by this call (class / "
+                            "module level): every caller sees the write"
+                            % unparse(t.value), t)
             if not isinstance(fr, AFrame):
                 raise Unsupported("item store on %r" % (fr,))
             if isinstance(t.slice, ast.Slice):
@@ -869,6 +881,10 @@ class Interp:
                         else:
                             yield v, e3, s3
                 else:
+                    if isinstance(o, Opaque) and o.d in ("str", "fstr",
+                                                         "fmt"):
+                        yield Opaque("str"), env2, st2
+                        continue
                     raise Unsupported("subscript on %r" % (o,))
         elif isinstance(e, ast.Tuple):
             yield tuple(self.ev1(x, env, st, ctx) for x in e.elts), env, st
@@ -949,7 +965,25 @@ class Interp:
                                         ctx):
                 yield (v if isinstance(v, Raise) else dict(v)), env, s2
         elif isinstance(e, ast.JoinedStr):
-            yield Opaque("fstr"), env, st
+            # the formatted values are evaluated (an AttributeError raised
+            # by one of them is the f-string's), the text itself is opaque
+            paths = [(env, st)]
+            for part in e.values:
+                if not isinstance(part, ast.FormattedValue):
+                    continue
+                nxt = []
+                for (e1, s1) in paths:
+                    try:
+                        for v, e2, s2 in self.ev(part.value, e1, s1, ctx):
+                            if isinstance(v, Raise):
+                                yield v, e2, s2
+                            else:
+                                nxt.append((e2, s2))
+                    except Unsupported:
+                        nxt.append((e1, s1))
+                paths = nxt
+            for (e1, s1) in paths:
+                yield Opaque("fstr"), e1, s1
         elif isinstance(e, ast.Dict):
             yield {self.ev1(k, env, st, ctx): self.ev1(v, env, st, ctx)
                    for k, v in zip(e.keys, e.values)}, env, st
@@ -1139,6 +1173,10 @@ class Interp:
         if isinstance(l, str) or isinstance(r, str):
             if isinstance(op, ast.Add):
                 return Opaque("str")
+        if isinstance(op, ast.Add) and any(isinstance(x, Opaque) and x.d in (
+                "str", "fstr", "fmt") for x in (l, r)) and all(
+                    isinstance(x, (str, Opaque)) for x in (l, r)):
+            return Opaque("str")
         if isinstance(l, int) and isinstance(r, int):
             table = {ast.BitOr: lambda: l | r, ast.BitAnd: lambda: l & r,
                      ast.LShift: lambda: l << r, ast.RShift: lambda: l >> r,
